@@ -246,6 +246,37 @@ func (vc *VC) freshRef(base string, t types.Type) Val {
 	return Val{c, SInt, t}
 }
 
+const aliveSort = "(Array Int Bool)"
+
+// newRef allocates a fresh reference: non-nil, not alive before, alive afterwards (ghost cell `alive`).
+func (f *Frame) newRef(base string, t types.Type) Val {
+	r := f.vc.freshRef(base, t)
+	al := f.getCell(f.cur, "ghost:alive", aliveSort)
+	f.vc.assume(not(sx("select", al, r.t)))
+	f.setCell(f.cur, "ghost:alive", aliveSort, sx("store", al, r.t, "true"))
+	return r
+}
+
+func isRefType(t types.Type) bool {
+	if t == nil {
+		return false
+	}
+	switch t.Underlying().(type) {
+	case *types.Pointer, *types.Map, *types.Chan, *types.Signature:
+		return true
+	}
+	return false
+}
+
+// assumeAlive: a reference obtained from the pre-existing world (parameter, heap, call result) is nil or alive.
+func (f *Frame) assumeAlive(st *State, v Val) {
+	if v.s != SInt || !isRefType(v.gt) || len(v.t) > 300 {
+		return
+	}
+	al := f.getCell(st, "ghost:alive", aliveSort)
+	f.vc.assume(or(eq(v.t, "0"), sx("select", al, v.t)))
+}
+
 func (vc *VC) addObl(f *Frame, kind, label, goal, src string, pos token.Pos) *Obligation {
 	if vc.specMode {
 		return &Obligation{}
